@@ -10,9 +10,14 @@ for f in sorted(glob.glob(os.path.join(HERE, "seeded", "*", "meta.json"))):
     what = m.get("summary") or SUM.get(d, "")
     det = ", ".join(m.get("detected_by", [])) or "—"
     inc = ", ".join(m.get("inconclusive", [])) or "—"
-    own = m["property"] in m.get("detected_by", [])
-    rows.append("| %s | %s | %s | %s | %s | %s |" % (d, "yes" if m.get("confirmed") else "NO", what, "**yes**" if own else ("exit 2" if m["property"] in m.get("inconclusive", []) else "no"), det, inc))
-tbl = "| change | confirmed (suite passes, demo fails/passes) | what it does | caught by its own property's check | checks raising VIOLATION | checks exiting 2 |\n|---|---|---|---|---|---|\n" + "\n".join(rows)
+    of = m.get("own_final")
+    if of:
+        ownres = {1: "**yes**", 2: "exit 2", 0: "no"}.get(of["rc"], str(of["rc"]))
+    else:
+        own = m["property"] in m.get("detected_by", [])
+        ownres = "**yes**" if own else ("exit 2" if m["property"] in m.get("inconclusive", []) else "no")
+    rows.append("| %s | %s | %s | %s | %s | %s |" % (d, "yes" if m.get("confirmed") else "NO", what, ownres, det, inc))
+tbl = "| change | confirmed (suite passes, demo fails/passes) | what it does | caught by its own property's check (final tree) | checks raising VIOLATION (last full sweep) | checks exiting 2 (last full sweep) |\n|---|---|---|---|---|---|\n" + "\n".join(rows)
 p = os.path.join(HERE, "DESIGN.md")
 s = open(p).read()
 s = re.sub(r"<!-- SEEDED-TABLE-BEGIN -->.*<!-- SEEDED-TABLE-END -->", "<!-- SEEDED-TABLE-BEGIN -->\n" + tbl + "\n<!-- SEEDED-TABLE-END -->", s, flags=re.S)
